@@ -18,8 +18,8 @@ ASSUMPTIONS = [
 NSHARDS = {"quick": 32, "thorough": 64}
 BUDGET_S = {"quick": 200, "thorough": 1500}
 MIN_HITS = {
-    'quick': {"exh2": 32768, "exh1": 128, "grammar_accepted": 3479, "trunc_case": 22346, "prefix": 51, "encode": 321, "tx_embed": 1338},
-    'thorough': {"exh2": 39321, "exh1": 153, "grammar_accepted": 279132, "trunc_case": 507809, "prefix": 61, "encode": 360, "tx_embed": 102633},
+    'quick': {"exh2": 32768, "exh1": 128, "grammar_accepted": 3479, "trunc_case": 22349, "prefix": 51, "encode": 321, "tx_embed": 1354},
+    'thorough': {"exh2": 39321, "exh1": 153, "grammar_accepted": 279235, "trunc_case": 507825, "prefix": 61, "encode": 388, "tx_embed": 102795},
 }
 
 LENS = [0, 1, 2, 74, 75, 76, 77, 254, 255, 256, 257, 65534, 65535, 65536, 65537]
@@ -148,6 +148,13 @@ def cases(ctx):
             if pi % N == S:
                 yield {"k": "script", "hex": (pre + tail).hex(), "tag": "unclosed_behind_prefix"}
                 yield {"k": "tx_embed", "hex": (pre + tail).hex(), "tag": "unclosed_behind_prefix"}
+    # scripts that start 76 a9 14 and end 88 ac but are NOT the 25-byte P2PKH template (a template fast path must check the length)
+    for fi, body in enumerate([bytes(19), bytes(21), b"", bytes(20) + b"\x88\xac\x76\xa9\x14" + bytes(20), bytes(20) + b"\x63", b"\x63" + bytes(19), bytes(20) + b"\x51\x51", bytes(18) + b"\x4c\x00",
+                               bytes(20) + b"\x88\xac" + b"\x76\xa9\x14" + bytes(19), b"\x01" * 20, bytes(75)]):
+        if fi % N == S % 11 or thorough:
+            sc = b"\x76\xa9\x14" + body + b"\x88\xac"
+            yield {"k": "script", "hex": sc.hex(), "tag": "p2pkh_like_frame"}
+            yield {"k": "tx_embed", "hex": sc.hex(), "tag": "p2pkh_like_frame"}
     # grammar scripts + mutations
     n = (5000 if thorough else 120)
     for i in range(n):
